@@ -245,7 +245,8 @@ def _ident(path):
 
 def run_history(case: dict, stats: Stats | None = None) -> dict:
     """Execute one sequential history; returns violations etc."""
-    root = fsmodel.fresh_root("h")
+    # a directory of its own per history: state that code under test might key by PATH cannot leak from one history to the next
+    root = fsmodel.fresh_root("h-" + digest([case.get("init"), case["steps"], case.get("target")])[:12])
     TARGET = case.get("target") or globals()["TARGET"]
     spec = [("d", "sb", 0o755), ("f", "sb/other.oct.md", b"===O===\nX::1\n===END===\n", 0o644),
             ("l", "sb/link.oct.md", "other.oct.md"),
@@ -265,6 +266,10 @@ def run_history(case: dict, stats: Stats | None = None) -> dict:
         return _run_history(case, stats, root, target, TARGET)
     finally:
         os.chdir(cwd_old)
+        with seam.passthrough():
+            import shutil
+
+            shutil.rmtree(root, ignore_errors=True)
         for k_, v_ in env_old.items():
             if v_ is None:
                 os.environ.pop(k_, None)
